@@ -103,9 +103,96 @@ static void emit_run(FILE *out, const std::string &id, const std::vector<u32> &i
   fprintf(out, "}\n");
 }
 
+// seg mode: one long run cut into segments of K clocks, in harness/seg_run's record format (spec/IsaSegV judges each segment on its own:
+// K clocks from the recorded state = K instructions of HexISA from the same state)
+static int emit_segments(FILE *out, const std::vector<u32> &img, const std::string &input, long K, long maxclocks) {
+  VerilatedContext ctx;
+  const char *noargs[] = {"rtl_sys"};
+  ctx.commandArgs(1, noargs);
+  ctx.randReset(0);
+  MODEL top{&ctx, "TOP"};
+  auto &memq = MEMQ(top);
+  for (u32 i = 0; i < MEMDEPTH; i++) memq[i] = i < img.size() ? img[i] : 0;
+  std::vector<u32> shadow(MEMDEPTH);
+  for (u32 i = 0; i < MEMDEPTH; i++) shadow[i] = memq[i];
+  top.i_rst = 1; top.i_clk = 0; top.eval();
+  for (int k = 0; k < 3; k++) { top.i_clk = 1; top.eval(); top.i_clk = 0; top.eval(); }
+  top.i_rst = 0; top.eval();
+  std::string status = "run"; int ret = 0; long n = 0, segn = 0, seg = 0; size_t ip = 0, ip0 = 0;
+  std::string o0, ofile[8];
+  u32 *mem = &memq[0];
+  u32 s0[4] = {R_PC(top), R_A(top), R_B(top), R_O(top)};
+  auto emit = [&](const char *st, int xv) {
+    long L = 0, H = MEMW;
+    for (long i = 0; i < (long)MEMW / 2; i++) if (shadow[i]) L = i + 1;
+    for (long i = MEMW - 1; i >= (long)MEMW / 2; i--) if (shadow[i]) H = i;
+    fprintf(out, "{\"seg\":%ld,\"n\":%ld,\"s0\":[%d,%d,%d,%d],\"ip0\":%zu,\"lo\":[", seg, segn, (int)s0[0], (int)s0[1], (int)s0[2], (int)s0[3], ip0 > input.size() ? input.size() : ip0);
+    for (long i = 0; i < L; i++) fprintf(out, "%s%d", i ? "," : "", (int)shadow[i]);
+    fprintf(out, "],\"hb\":%ld,\"hi\":[", H);
+    for (long i = H; i < (long)MEMW; i++) fprintf(out, "%s%d", i > H ? "," : "", (int)shadow[i]);
+    fprintf(out, "],\"s1\":[%d,%d,%d,%d],\"ip1\":%zu,\"diff\":[", (int)R_PC(top), (int)R_A(top), (int)R_B(top), (int)R_O(top), ip > input.size() ? input.size() : ip);
+    bool first = true;
+    for (u32 i = 0; i < MEMDEPTH; i++) if (memq[i] != shadow[i]) { fprintf(out, "%s[%d,%d]", first ? "" : ",", (int)i, (int)memq[i]); first = false; shadow[i] = memq[i]; }
+    fprintf(out, "],\"st\":\"%s\",\"xv\":%d}\n", st, xv);
+    fflush(out);
+    s0[0] = R_PC(top); s0[1] = R_A(top); s0[2] = R_B(top); s0[3] = R_O(top); ip0 = ip; seg++; segn = 0;
+  };
+  while (n < maxclocks) {
+    u32 pc = R_PC(top), a = R_A(top), b = R_B(top), o = R_O(top);
+    if (!next_defined(mem, pc, a, o)) { status = "throw"; break; }
+    if (!next_safe(mem, pc, a, b, o).ok) { status = "unsafe"; break; }
+    bool exiting = false;
+    if (top.o_syscall_valid) {
+      u32 sp = memq[1], call = top.o_syscall;
+      if (call == 0) { ret = (int)memq[sp + 2]; exiting = true; }
+      else if (call == 1) {
+        int s = (int)memq[sp + 3]; char by = (char)(memq[sp + 2] & 0xFF);
+        if (s < 256) o0 += by; else ofile[(s >> 8) & 7] += by;
+      } else if (call == 2) {
+        int s = (int)memq[sp + 2];
+        u32 v = 255;
+        if (s < 256 && ip < input.size()) v = (unsigned char)input[ip];
+        if (s < 256) ip++;
+        memq[sp + 1] = v;
+      }
+    }
+    top.i_clk = 1; top.eval();
+    top.i_clk = 0; top.eval();
+    n++; segn++;
+    if (exiting) { status = "exit"; break; }
+    if (segn >= K) emit("run", 0);
+  }
+  top.final();
+  emit(status.c_str(), ret);
+  fprintf(out, "{\"end\":true,\"steps\":%ld,\"ret\":%d,\"stdout\":\"", n, ret);
+  for (unsigned char c : o0) fprintf(out, "%02x", c);
+  fprintf(out, "\",\"files\":[");
+  bool first = true;
+  for (int k = 0; k < 8; k++) {
+    if (ofile[k].empty()) continue;
+    fprintf(out, "%s[%d,\"", first ? "" : ",", k + 1); first = false;
+    for (unsigned char c : ofile[k]) fprintf(out, "%02x", c);
+    fprintf(out, "\"]");
+  }
+  fprintf(out, "]}\n");
+  return 0;
+}
+
 int main(int argc, char **argv) {
   if (argc < 6) return 2;
   std::string m = argv[1];
+  if (m == "seg") {
+    // rtl_sys seg <binary> <stdin-file> <K> <out.ndjson> [maxclocks]
+    std::string bin = slurp(argv[2]), input = slurp(argv[3]);
+    long K = atol(argv[4]); FILE *out = fopen(argv[5], "w");
+    long maxclocks = argc > 6 ? atol(argv[6]) : 60000000;
+    u32 hdr = 0; if (bin.size() >= 4) memcpy(&hdr, bin.data(), 4);
+    std::vector<u32> img(hdr, 0);
+    for (u32 i = 0; i < hdr && 4 + 4 * (size_t)i + 4 <= bin.size(); i++) memcpy(&img[i], bin.data() + 4 + 4 * i, 4);
+    int rc = emit_segments(out, img, input, K, maxclocks);
+    fclose(out);
+    return rc;
+  }
   if (m == "run") {
     std::string bin = slurp(argv[2]), input = slurp(argv[3]);
     long maxclocks = atol(argv[4]); FILE *out = fopen(argv[5], "a");
